@@ -233,7 +233,9 @@ def check_balance(rep, fl, writers):
 
 def add_context(fl):
     """Locate `add` by role and compute its dataflow once."""
-    body = fl.policy_fn("add")
+    # flattened: the minimum search (`for_each` closure or `for` loop) and the victim bookkeeping
+    # (`.map(|cost| ..)` or `if let Some(cost)`) are plain control flow either way
+    body = fl.facts.flat(fl.policy_fn("add"))
     costs = None
     for bi, t in calls_to(body, SLFU + "::room_left"):
         costs = norm(body.call_args(t)[0])
@@ -459,8 +461,25 @@ def check_C01(rep, fl):
 # C07
 # ----------------------------------------------------------------------------------------
 
+def check_policy_forwarding(rep, fl, rule="R16.6"):
+    """LFUPolicy::update / remove hand their arguments to the SampledLFU unconditionally: a guard in
+    the wrapper (e.g. `if cost > max_cost { return }`) leaves an updated entry with its old charge."""
+    for meth, callee, nargs in (("update", SLFU + "::update", 2), ("remove", SLFU + "::remove", 1)):
+        b = fl.facts.flat(fl.policy_fn(meth))
+        cs = calls_to(b, callee)
+        ok = len(cs) == 1
+        if ok:
+            a = [norm(x) for x in b.call_args(cs[0][1])]
+            params = [V(b.local_name.get(2 + i, "arg%d" % (2 + i))) for i in range(nargs)]
+            ok = [norm(b.expand(x)) if x[0] != "var" else x for x in a[1:1 + nargs]] == params and must_pass_through(b, [cs[0][0]])
+        rep.check(ok, rule, fl, b, "%s forwards" % meth, "policy.%s applies SampledLFU::%s to its own arguments on every path" % (meth, meth),
+                  "policy.%s does not reach SampledLFU::%s with its own arguments on every path: the charge of the entry is left as it was" % (meth, meth))
+
+
 def check_C07(rep, fl):
     facts = fl.facts
+    # "when there is room nothing is evicted": room is computed from `used` (R01.2)
+    check_balance(rep, fl, slfu_writers(facts))
     body, costs = add_context(fl)
     key, cost = V("key"), V("cost")
     rvars = room_vars(body)
@@ -665,91 +684,185 @@ def check_C07(rep, fl):
               "the chosen candidate is not removed from the sample: it can be selected (and reported) again")
 
 
+def loop_of(body, bi):
+    """Blocks of the innermost cycle through block bi (empty if bi is not in a loop)."""
+    return {b for b in body.live_blocks() if bi in body.reachable(b) and b in body.reachable(bi)}
+
+
 def min_vars(body):
-    """Find the min-search closure of add() by role: a closure passed to Iterator::for_each whose
-    body calls TinyLFU::estimate and writes >= 3 captured variables.  Returns names of the captured
-    (hits, key, id, cost) variables in the *parent*."""
-    for bi, t in calls_to(body, "Iterator::for_each"):
-        for ce in closure_of_call(body, t):
-            cb = body.facts.closure_body(ce[1])
-            if not calls_to(cb, "policy::TinyLFU::estimate"):
-                continue
-            writes = {}
-            for cbi in cb.live_blocks():
-                for si, st in enumerate(cb.blocks[cbi]["stmts"]):
-                    if st["k"] == "assign":
-                        tg = place_target(cb, st["pl"])
-                        if tg is not None and tg[0] == "var" and tg[1] not in cb.name_local:
-                            writes[tg[1]] = (cbi, si, norm(cb.rvalue_expr(st["rv"], True)))
-            if len(writes) < 3:
-                continue
-            # classify by value written
-            res = {"closure": cb, "call": (bi, t), "writes": writes}
-            for name, (cbi, si, e) in writes.items():
-                if is_call(e, "TinyLFU::estimate"):
-                    res["hits"] = name
-                elif e[0] == "field" and e[2] == "key":
-                    res["key"] = name
-                elif e[0] == "field" and e[2] == "cost":
-                    res["cost"] = name
-                else:
-                    res["id"] = name
-            if all(k in res for k in ("hits", "key", "cost", "id")):
-                return res
+    """Find the minimum search of add() by role, in the flattened body (a `for_each` closure and a
+    `for` loop look the same there): the innermost loop around an Iterator::next call that calls
+    TinyLFU::estimate and writes >= 3 variables declared outside the loop.  Returns the names of the
+    (hits, key, id, cost) variables, the loop's blocks and the iterated expression."""
+    for ebi, et in calls_to(body, "policy::TinyLFU::estimate"):
+        if not body.in_loop(ebi):
+            continue
+        nexts = [(bi, t) for bi, t in body.calls() if callee_matches(body.callee_of(t), "Iterator::next") and ebi in body.reachable(bi) and bi in body.reachable(ebi)]
+        if not nexts:
+            continue
+        # innermost: the smallest cycle through both the next() call and the estimate call
+        nbi, nt = min(nexts, key=lambda x: len(loop_of(body, x[0]) & loop_of(body, ebi)))
+        region = {b for b in body.live_blocks() if nbi in body.reachable(b) and b in body.reachable(nbi) and (ebi in body.reachable(b) or b in body.reachable(ebi))}
+        region = {b for b in region if b in loop_of(body, nbi)}
+        # restrict to the cycle that does not leave through the outer loop: blocks from which next() is reachable without passing the region's entry from outside
+        inner = _inner_cycle(body, nbi, ebi)
+        writes = {}
+        for cbi in sorted(inner):
+            for si, st in enumerate(body.blocks[cbi]["stmts"]):
+                if st["k"] != "assign":
+                    continue
+                tg = place_target(body, st["pl"])
+                if tg is None or tg[0] != "var":
+                    continue
+                l = body.name_local.get(tg[1])
+                if l is None:
+                    continue
+                # declared outside the loop: has a definition outside the cycle
+                if not any(d[0] not in inner for d in body.defs.get(l, [])):
+                    continue
+                writes[tg[1]] = (cbi, si, norm(body.rvalue_expr(st["rv"], True)))
+        if len(writes) < 3:
+            continue
+        res = {"region": inner, "next": (nbi, nt), "estimate": (ebi, et), "writes": writes}
+        for name, (cbi, si, e) in writes.items():
+            ee = norm(body.expand(e))
+            if is_call(e, "TinyLFU::estimate") or is_call(ee, "TinyLFU::estimate"):
+                res["hits"] = name
+            elif e[0] == "field" and e[2] == "key":
+                res["key"] = name
+            elif e[0] == "field" and e[2] == "cost":
+                res["cost"] = name
+            else:
+                res["id"] = name
+        if all(k in res for k in ("hits", "key", "cost", "id")):
+            return res
     return None
+
+
+def _inner_cycle(body, nbi, ebi):
+    """Blocks on a cycle nbi -> ... -> ebi -> ... -> nbi that stays inside the smallest loop around
+    nbi: computed as the blocks reachable from nbi that reach nbi again without going through a block
+    that dominates nbi's loop from outside (approximated by: without passing a block from which ebi
+    is not reachable *and* that is reachable from the exit edge of the next() switch)."""
+    # exit edge of the iteration: the None arm of the switch on next()'s result
+    exits = set()
+    for b in body.succs(nbi):
+        t = body.term(b)
+        if t and t["k"] == "switch":
+            for tgt, atom, pol in edge_literals(body, b):
+                if atom is not None and atom[0] == "variant" and atom[2] == "None" and pol:
+                    exits.add((b, tgt))
+    fwd = body.reachable(nbi, removed_edges=exits)
+    return {b for b in fwd if nbi in body.reachable(b, removed_edges=exits)}
 
 
 def check_min_search(rep, fl, body, costs):
     mv = min_vars(body)
     if mv is None:
-        rep.bad("R07.4", fl, body, "min-search", "no per-candidate minimum search (closure over the sample calling admit.estimate) found in add()")
+        rep.bad("R07.4", fl, body, "min-search", "no per-candidate minimum search (loop over the sample calling admit.estimate and recording the minimum) found in add()")
         return
-    cb = mv["closure"]
-    at, centry = dataflow(cb)
+    region = mv["region"]
+    at, entry = dataflow(body)
     # the iterated collection is the sample vector, enumerated
-    bi, t = mv["call"]
-    recv = norm(body.call_args(t)[0])
-    ok_iter = is_call(recv, "Iterator::enumerate") and is_call(recv[2][0], "iter") and recv[2][0][2][0][0] == "var"
-    rep.check(ok_iter, "R07.4", fl, body, "iterates sample", "the minimum is searched over sample.iter().enumerate()", "the minimum search iterates %s" % show(recv), loc=t["sp"])
+    nbi, nt = mv["next"]
+    recv = norm(body.expand(norm(body.call_args(nt)[0])))
+    src = [c for c in calls_in(recv) if is_call(c, "Iterator::enumerate") or is_call(c, "iter") or is_call(c, "into_iter")]
+    ok_iter = any(is_call(c, "Iterator::enumerate") for c in src) and any((is_call(c, "iter") or is_call(c, "into_iter")) and any(x[0] == "var" for x in subexprs(c)) for c in src)
+    if not ok_iter:
+        # the iterator is held in a variable: look at its definition(s)
+        for x in subexprs(recv):
+            if x[0] in ("var", "tmp"):
+                l = body.name_local.get(x[1]) if x[0] == "var" else x[1]
+                for dbi, dsi in body.defs.get(l, []) if isinstance(l, int) else []:
+                    de = norm(body.def_expr(dbi, dsi, True))
+                    cs = calls_in(de)
+                    if any(is_call(c, "Iterator::enumerate") for c in cs) and any(is_call(c, "iter") or is_call(c, "into_iter") for c in cs):
+                        ok_iter = True
+    rep.check(ok_iter, "R07.4", fl, body, "iterates sample", "the minimum is searched over sample.iter().enumerate()", "the minimum search iterates %s" % show(recv), loc=nt["sp"])
     # estimate(pair.key) for the element
-    est = calls_to(cb, "policy::TinyLFU::estimate")
-    ea = [norm(x) for x in cb.call_args(est[0][1])]
+    ebi, et = mv["estimate"]
+    ea = [norm(x) for x in body.call_args(et)]
     elem_key = ea[1]
-    rep.check(elem_key[0] == "field" and elem_key[2] == "key", "R07.4", fl, cb, "estimate(pair.key)", "popularity is estimated for the candidate's key", "estimate is applied to %s" % show(elem_key))
-    hits_tgt = place_target(cb, est[0][1]["dest"])
+    rep.check(elem_key[0] == "field" and elem_key[2] == "key", "R07.4", fl, body, "estimate(pair.key)", "popularity is estimated for the candidate's key", "estimate is applied to %s" % show(elem_key))
+    hits_tgt = place_target(body, et["dest"])
     want = ("atom", ("bin", "Lt", hits_tgt, V(mv["hits"])))
     pair = elem_key[1]
     for name, (cbi, si, e) in sorted(mv["writes"].items()):
-        ok = all(feval(want, s) is True for s in centry.get(cbi, set()))
-        rep.check(ok, "R07.4", fl, cb, "write %s" % name, "min_* updated only when hits < min_hits (strictly smaller => least popular kept)",
+        ok = all(feval(want, s) is True for s in entry.get(cbi, set()))
+        rep.check(ok, "R07.4", fl, body, "write %s" % name, "min_* updated only when hits < min_hits (strictly smaller => least popular kept)",
                   "%s is overwritten on a path where `hits < min_hits` does not hold: the selected victim is not the least popular candidate" % name,
-                  loc=cb.blocks[cbi]["stmts"][si]["sp"])
+                  loc=body.blocks[cbi]["stmts"][si]["sp"])
         # value provenance: from the same element
         if name == mv["hits"]:
-            okv = e == norm(cb.expand(hits_tgt)) or is_call(e, "TinyLFU::estimate")
+            okv = e == norm(body.expand(hits_tgt)) or e == hits_tgt or is_call(e, "TinyLFU::estimate") or is_call(norm(body.expand(e)), "TinyLFU::estimate")
         elif name == mv["key"]:
             okv = e == ("field", pair, "key")
         elif name == mv["cost"]:
             okv = e == ("field", pair, "cost")
         else:
             okv = e[0] in ("var", "field") and e != ("field", pair, "key") and not mentions(e, V(mv["hits"]))
-        rep.check(okv, "R07.4", fl, cb, "value %s" % name, "%s takes its value from the same candidate" % name, "%s := %s is not taken from the compared candidate" % (name, show(e)),
-                  loc=cb.blocks[cbi]["stmts"][si]["sp"])
+        rep.check(okv, "R07.4", fl, body, "value %s" % name, "%s takes its value from the same candidate" % name, "%s := %s is not taken from the compared candidate" % (name, show(e)),
+                  loc=body.blocks[cbi]["stmts"][si]["sp"])
     # all four written together (same block)
     blocks = {cbi for (cbi, si, e) in mv["writes"].values()}
-    rep.check(len(blocks) == 1 and len(mv["writes"]) >= 4, "R07.4", fl, cb, "atomic update", "key, hits, index and cost of the minimum are updated together",
+    rep.check(len(blocks) == 1 and len(mv["writes"]) >= 4, "R07.4", fl, body, "atomic update", "key, hits, index and cost of the minimum are updated together",
               "the four min_* variables are not updated together (%s)" % sorted(mv["writes"]))
     # min_hits initialised to i64::MAX at the top of every iteration
     hl = body.name_local.get(mv["hits"])
-    inits = [norm(body.def_expr(dbi, dsi, True)) for dbi, dsi in body.defs.get(hl, [])]
+    inits = [norm(body.def_expr(dbi, dsi, True)) for dbi, dsi in body.defs.get(hl, []) if dbi not in region]
     rep.check(inits == [("const", 9223372036854775807, "i64")], "R07.4", fl, body, "min_hits init", "min_hits starts at i64::MAX for every selection",
               "min_hits initial value(s): %s" % [show(i) for i in inits])
     # the init is inside the loop (re-initialised per selection), i.e. dominated by fill_sample
-    if body.defs.get(hl):
-        dbi = body.defs[hl][0][0]
+    outer_defs = [d for d in body.defs.get(hl, []) if d[0] not in region]
+    if outer_defs:
+        dbi = outer_defs[0][0]
         fills = [b for b, _ in calls_to(body, SLFU + "::fill_sample")]
         rep.check(dominates_all_paths(body, fills, dbi) and body.in_loop(dbi), "R07.4", fl, body, "min_hits re-init", "the minimum is re-initialised for every selection",
                   "min_* are not re-initialised for each selection round")
+
+
+def check_victim_pair(rep, fl, rule="R16.5"):
+    """The (key, cost) pair recorded for an evicted victim names the key whose charge was released
+    and carries that key's own charged cost: the cost read from the *same* sample element as the
+    key in the minimum search (or the value returned by costs.remove(key))."""
+    facts = fl.facts
+    body, costs = add_context(fl)
+    rems = calls_to(body, SLFU + "::remove")
+    pushes = []
+    for b, t in calls_to(body, "Vec::push"):
+        a = [norm(x) for x in body.call_args(t)]
+        if is_call(a[1], "PolicyPair::new"):
+            pushes.append((b, t, a[1][2]))
+    if len(pushes) != 1 or len(rems) != 1:
+        rep.bad(rule, fl, body, "victim record", "expected one costs.remove and one victims.push(PolicyPair::new(..)) in add(), found %d / %d" % (len(rems), len(pushes)))
+        return
+    b, t, (k_e, c_e) = pushes[0]
+    rk = norm(body.call_args(rems[0][1])[1])
+    okk = k_e == rk
+    # provenance of the cost
+    okc = False
+    why = "the recorded cost is %s" % show(c_e)
+    rem_res = norm(body.call_expr(rems[0][1], True))
+    if mentions(c_e, rem_res) or mentions(norm(body.expand(c_e)), rem_res):
+        okc = True
+    elif c_e[0] == "var" and k_e[0] == "var":
+        mv = min_vars(body)
+        if mv is not None and mv.get("key") == k_e[1] and mv.get("cost") == c_e[1]:
+            kb, ks, ke = mv["writes"][mv["key"]]
+            cb_, cs, ce_ = mv["writes"][mv["cost"]]
+            # same guarded block, same candidate element
+            okc = kb == cb_ and ke[0] == "field" and ce_[0] == "field" and ke[2] == "key" and ce_[2] == "cost" and ke[1] == ce_[1]
+            if okc:
+                # and not reassigned in add() after the search (apart from its initialisation)
+                l = body.name_local.get(c_e[1])
+                others = [d for d in body.defs.get(l, []) if d[0] not in mv["region"] and norm(body.def_expr(d[0], d[1], True))[0] != "const"]
+                if others:
+                    okc = False
+                    why = "%s is reassigned in add() after the minimum search" % c_e[1]
+        elif mv is not None:
+            why = "the recorded cost is %s, the minimum search records the candidate's cost in %s" % (show(c_e), mv.get("cost"))
+    rep.check(okk and okc, rule, fl, body, "victim record", "the victim record is (the un-charged key, the cost sampled from the same element as that key)",
+              "the victim record does not carry the victim's own charge (key %s vs released key %s; %s): on_evict reports another entry's cost" % (show(k_e), show(rk), why), loc=t["sp"])
 
 
 def check_fill_sample(rep, fl, fs):
